@@ -261,7 +261,8 @@ def breakCyclesWith (fuel : Nat) (ext : BreakExt) (m : Mat) (root : Option (List
       if outDegree == 0 then throw .valueError
       let directed ← resolveDirected m directed
       -- break self-loops
-      let a0 : Rows := tab m.nRow fun i => (m.adj i).filter (· != i)
+      -- break self-loops: `csr_matrix(tril(adjacency, -1) + triu(adjacency, 1))`, rows come out sorted
+      let a0 : Rows := tab m.nRow fun i => sortNat ((m.adj i).filter (· != i))
       if directed then
         let ccLabels := ext.labelsNoLoop true
         let cycleLabels := (npUnique ccLabels).filter fun v => ccLabels.count v > 1
